@@ -1997,7 +1997,7 @@ class Enum(Adapter):
     def _emitbuild(self, code):
         fname = f"factory_{code.allocateId()}"
         code.append(f"{fname} = {repr(self.encmapping)}")
-        return f"reuse({fname}.get(obj, obj), lambda obj: ({self.subcon._compilebuild(code)}))"
+        return f"(reuse({fname}.get(obj, obj), lambda obj: ({self.subcon._compilebuild(code)})), obj)[1]"
 
     def _emitprimitivetype(self, ksy, bitwise):
         name = "enum_%s" % ksy.allocateId()
@@ -2153,7 +2153,7 @@ class Mapping(Adapter):
     def _emitbuild(self, code):
         fname = f"factory_{code.allocateId()}"
         code.append(f"{fname} = {repr(self.encmapping)}")
-        return f"reuse({fname}[obj], lambda obj: ({self.subcon._compilebuild(code)}))"
+        return f"(reuse({fname}[obj], lambda obj: ({self.subcon._compilebuild(code)})), obj)[1]"
 
 
 #===============================================================================
